@@ -4,12 +4,12 @@ import vfx
 from props import common
 
 RULE = ("every string over the alphabet {'/', '.', 'a', U+00E9} up to the length bound, joined onto each of "
-        "the bases {root, /a, /a/b.c, /é/.x}, observed through as_str, parent, filename, extension, is_root; "
+        "the bases {root, /a, /a/b.c, /é/.x, /abc/d, /ab/cde/f, /é日/x} (component lengths rising and falling, multi-byte), observed through as_str, parent, filename, extension, is_root; "
         "plus random longer arguments and chains; a case is non-trivial if the argument has >= 2 characters and "
         "distinct by (base, argument)")
 ASSUMPTIONS = ["join arguments are valid UTF-8 (the API takes &str)"]
 ALPHA = ["/", ".", "a", "é"]
-BASES = ["", "a", "a/b.c", "é/.x"]
+BASES = ["", "a", "a/b.c", "é/.x", "abc/d", "ab/cde/f", "é日/x"]
 
 
 def py_resolve(base_comps, arg):
@@ -32,8 +32,8 @@ def corpus():
     c = vfx.Case("c06corpus")
     c.base("mem")
     c.fs("base", 0)
-    for arg in ["...", "a/..../b", "....", "../..", "a/./../b", "/..", "a/", "/", "//", "a//b", ".a", "a.", "a..b", "..a", ".", "..", "é/../日", "x.tar.gz", ".hidden", "a/.b.c"]:
-        for b in ["", "a/b.c"]:
+    for arg in ["../..", "../../..", "../../x", "x/../../..", "...", "a/..../b", "....", "../..", "a/./../b", "/..", "a/", "/", "//", "a//b", ".a", "a.", "a..b", "..a", ".", "..", "é/../日", "x.tar.gz", ".hidden", "a/.b.c"]:
+        for b in ["", "a/b.c", "abc/d", "ab/cde/f", "é日/x", "日本/d"]:
             add_ops(c, b, arg)
     return [c]
 
